@@ -78,6 +78,9 @@ def write_if_changed(path, content):
 def build_go():
     """(re)build the Go harness from /repo's current working tree, hooks on."""
     write_if_changed(os.path.join(HGO, "go.sum"), open(os.path.join(REPO, "go.sum")).read())
+    gm = open(os.path.join(HGO, "go.mod")).read()
+    write_if_changed(os.path.join(HGO, "go.mod"),
+                     re.sub(r"(replace github.com/openconfig/goyang => ).*", r"\g<1>" + REPO, gm))
     rc, out = sh(["go", "build", "-tags", "verif", "-o", "harness", "."], cwd=HGO, env=GOENV,
                  timeout=600)
     if rc != 0:
@@ -139,21 +142,42 @@ def newest(paths):
 def build_ml(force=False):
     """extract the models (Separate Extraction) and build the OCaml driver when stale."""
     drv = os.path.join(HML, "driver")
+    ext = write_extract_v()
     srcs = glob.glob(os.path.join(COQ, "Model", "*.vo")) + glob.glob(os.path.join(COQ, "Spec", "*.vo")) + \
         glob.glob(os.path.join(COQ, "Gen", "*.vo")) + glob.glob(os.path.join(COQ, "Base", "*.vo")) + \
-        [os.path.join(COQ, "Extract", "Extract.v"), os.path.join(HML, "driver.ml")]
+        [ext, os.path.join(HML, "build.sh")] + glob.glob(os.path.join(HML, "*.ml"))
     if not force and os.path.exists(drv) and os.path.getmtime(drv) >= newest(srcs):
         return True, "up to date"
     gen = os.path.join(HML, "gen")
     os.makedirs(gen, exist_ok=True)
     for f in glob.glob(os.path.join(gen, "*")):
         os.remove(f)
-    rc, out = sh(["coqc", "-Q", COQ, "GY", "-w", "-all", os.path.join(COQ, "Extract", "Extract.v")],
+    rc, out = sh(["coqc", "-Q", COQ, "GY", "-w", "-all", ext],
                  cwd=gen, timeout=600)
     if rc != 0:
         return False, out
     rc, out = sh(["sh", os.path.join(HML, "build.sh")], timeout=900)
     return rc == 0, out
+
+
+def write_extract_v():
+    """assemble Extract.v from coq/Extract/parts/*.ext ('require:' and 'roots:' lines)"""
+    req, roots = [], []
+    for f in sorted(glob.glob(os.path.join(COQ, "Extract", "parts", "*.ext"))):
+        for line in open(f):
+            line = line.strip()
+            if line.startswith("require:"):
+                req += [x for x in line[8:].split() if x not in req]
+            elif line.startswith("roots:"):
+                roots += [x for x in line[6:].split() if x not in roots]
+    body = ("(* generated from Extract/parts/*.ext.  ExtrOcamlBasic only: bool/option/unit/list/prod/sumbool map to\n"
+            "   OCaml's; N, Z, positive, nat stay Coq datatypes.  No Extract Constant. *)\n"
+            "From Coq Require Import List NArith ZArith Bool.\nFrom Coq Require Extraction ExtrOcamlBasic.\n"
+            "From GY Require Import %s.\nExtraction Language OCaml.\nSeparate Extraction\n  %s.\n"
+            % (" ".join(req), "\n  ".join(roots)))
+    p = os.path.join(WORK, "Extract.v")
+    write_if_changed(p, body)
+    return p
 
 
 def model_vos():
